@@ -161,25 +161,25 @@ func (c *Client) ABCIQueryWithOptions(ctx context.Context, path string, data tmb
 		return nil, err
 	}
 
+	// Build a Merkle key path from path and resp.Key: both the value proof and
+	// the absence proof are verified along it.
+	if c.keyPathFn == nil {
+		return nil, errors.New("please configure Client with KeyPathFn option")
+	}
+
+	kp, err := c.keyPathFn(path, resp.Key)
+	if err != nil {
+		return nil, fmt.Errorf("can't build merkle key path: %w", err)
+	}
+
 	// Validate the value proof against the trusted header.
 	if resp.Value != nil {
-		// 1) build a Merkle key path from path and resp.Key
-		if c.keyPathFn == nil {
-			return nil, errors.New("please configure Client with KeyPathFn option")
-		}
-
-		kp, err := c.keyPathFn(path, resp.Key)
-		if err != nil {
-			return nil, fmt.Errorf("can't build merkle key path: %w", err)
-		}
-
-		// 2) verify value
 		err = c.prt.VerifyValue(resp.ProofOps, l.AppHash, kp.String(), resp.Value)
 		if err != nil {
 			return nil, fmt.Errorf("verify value proof: %w", err)
 		}
 	} else { // OR validate the absence proof against the trusted header.
-		err = c.prt.VerifyAbsence(resp.ProofOps, l.AppHash, string(resp.Key))
+		err = c.prt.VerifyAbsence(resp.ProofOps, l.AppHash, kp.String())
 		if err != nil {
 			return nil, fmt.Errorf("verify absence proof: %w", err)
 		}
